@@ -885,7 +885,17 @@ impl<'gc, 'r> Env<'gc, 'r> {
         let ph = hook_phase(&snap);
         let pc = self.colour_of(&snap, s.0, ex);
         let cc = self.colour_of(&snap, t.0, ex);
-        let Some(h) = stash(self.mc, setp, t.1) else {
+        let prev = obs::set_quiet_panics(true);
+        let stashed = catch_unwind(AssertUnwindSafe(|| stash(self.mc, setp, t.1)));
+        obs::set_quiet_panics(prev);
+        let stashed = match stashed {
+            Ok(h) => h,
+            Err(p) => {
+                ex.violate("C14", "stash-panicked", format!("stash of object {} into set {} panicked: {}", t.0, s.0, obs::panic_message(&*p)));
+                return;
+            }
+        };
+        let Some(h) = stashed else {
             ex.cov.ops_skipped += 1;
             return;
         };
